@@ -14,12 +14,13 @@ type TV struct {
 }
 
 type SpecEnv struct {
-	vc        *VC
-	vars      map[string]TV
-	st        State
-	old       State // function-entry state (nil if not meaningful)
-	depth     int
-	autoDeref map[string]bool
+	vc          *VC
+	vars        map[string]TV
+	st          State
+	old         State // function-entry state (nil if not meaningful)
+	depth       int
+	autoDeref   map[string]bool
+	unfoldDepth int
 	// allocation counters at function entry are read from old
 }
 
@@ -63,6 +64,12 @@ func (u *Universe) tyOfTypeExpr(t *TypeExpr, cs *Contracts) (*Ty, error) {
 			return nil, err
 		}
 		return &Ty{K: KSlice, Elem: et}, nil
+	case "seq":
+		et, err := u.tyOfTypeExpr(t.Elem, cs)
+		if err != nil {
+			return nil, err
+		}
+		return &Ty{K: KSeq, Elem: et}, nil
 	case "map":
 		kt, err := u.tyOfTypeExpr(t.Key, cs)
 		if err != nil {
@@ -176,7 +183,7 @@ func (e *SpecEnv) tr(x Expr) (TV, error) {
 		switch v.Ty.K {
 		case KSlice:
 			m := vc.mem(e.st, elemMem(v.Ty.Elem), elemMemSort(v.Ty.Elem))
-			return TV{sel(sel(m, "(s-arr "+v.T+")"), i.T), v.Ty.Elem}, nil
+			return TV{sel(vc.seed(sel(m, "(s-arr "+v.T+")"), arraySort("Int", v.Ty.Elem.Sort())), i.T), v.Ty.Elem}, nil
 		case KString:
 			return TV{"(str.at " + v.T + " " + i.T + ")", tyString}, nil
 		case KMap:
@@ -185,6 +192,8 @@ func (e *SpecEnv) tr(x Expr) (TV, error) {
 		case KArrPtr:
 			m := vc.mem(e.st, elemMem(v.Ty.Elem), elemMemSort(v.Ty.Elem))
 			return TV{sel(sel(m, v.T), i.T), v.Ty.Elem}, nil
+		case KSeq:
+			return TV{sel(v.T, i.T), v.Ty.Elem}, nil
 		}
 		return TV{}, fmt.Errorf("index on %s in %s", v.Ty, x)
 	case *ESlice:
@@ -440,6 +449,11 @@ func (e *SpecEnv) trCall(x *ECall) (TV, error) {
 		if err != nil {
 			return TV{}, err
 		}
+		defer func() {
+			if f.Body != nil {
+				vc.noteInstance(f, args, e.unfoldDepth)
+			}
+		}()
 		if len(args) != len(f.Params) {
 			return TV{}, fmt.Errorf("fn %s expects %d arguments", f.Name, len(f.Params))
 		}
@@ -495,6 +509,16 @@ func (e *SpecEnv) trCall(x *ECall) (TV, error) {
 			return TV{"(s-cap " + args[0].T + ")", tyInt}, nil
 		}
 		return TV{}, fmt.Errorf("cap of %s", args[0].Ty)
+	case "elems": // elems(s): the contents of the backing array of a slice, as a ghost sequence
+		if err := need(1); err != nil {
+			return TV{}, err
+		}
+		if args[0].Ty.K != KSlice {
+			return TV{}, fmt.Errorf("elems of %s", args[0].Ty)
+		}
+		vc.u.regElem(args[0].Ty.Elem)
+		m := vc.mem(e.st, elemMem(args[0].Ty.Elem), elemMemSort(args[0].Ty.Elem))
+		return TV{vc.seed(sel(m, "(s-arr "+args[0].T+")"), arraySort("Int", args[0].Ty.Elem.Sort())), &Ty{K: KSeq, Elem: args[0].Ty.Elem}}, nil
 	case "arr":
 		if err := need(1); err != nil {
 			return TV{}, err
@@ -690,4 +714,25 @@ func (vc *VC) loadPtr(st State, p TV) (TV, error) {
 		t = fmt.Sprintf("(ite (and ((_ is pfield) %s) (= (pf-fid %s) %d)) %s %s)", p.T, p.T, i+1, sel(h, "(pf-obj "+p.T+")"), t)
 	}
 	return TV{t, el}, nil
+}
+
+// seed puts a ground term into the solver's term graph even when it only occurs
+// under a quantifier (E-matching needs the ground term to instantiate frame
+// axioms).  It asserts an uninterpreted predicate of the term: unlike a defining
+// equation this cannot be eliminated by the solver's preprocessing.
+func (vc *VC) seed(term, sort string) string {
+	if strings.Contains(term, "$") {
+		return term
+	}
+	if vc.seeds == nil {
+		vc.seeds = map[string]string{}
+	}
+	if _, ok := vc.seeds[term]; ok {
+		return term
+	}
+	fn := "seed_" + sanitize(strings.NewReplacer("(", "", ")", "", " ", "_").Replace(sort))
+	vc.declareFun(fn, []string{sort}, "Bool")
+	vc.assume("(" + fn + " " + term + ")")
+	vc.seeds[term] = fn
+	return term
 }
